@@ -485,8 +485,8 @@ theorem C01_verifying_keys_partial (h4 : c.p % 4 = 3) (hall : ∀ P : (W c).Poin
   verify_iff_recovered ok h4 hall hp2n bf bf' Q hQ rQ z r s hz
 
 /-- the same in the group: `Q` verifies `(z, r, s)` iff `Q = r⁻¹(s•R − z•G)` for a point `R` with `x(R) mod n = r`
-(`Q` of the `n`-torsion; `keyOfNonce c z r s R = (s/r)•R − (z/r)•G`) -/
-theorem C01_verifying_keys_group (bf : Int) (Q : Pt) (hQ : OnCurve c Q) (rQ : Reduced c Q)
+(`keyOfNonce c z r s R = (s/r)•R − (z/r)•G`).  PARTIAL: extra hypothesis `n • Q = ∞` (every curve point on secp256k1 / secp256r1). -/
+theorem C01_verifying_keys_group_partial (bf : Int) (Q : Pt) (hQ : OnCurve c Q) (rQ : Reduced c Q)
     (hQn : (c.n : Int) • toPoint c Q = 0) (z r s : Int) (hz : z ≠ 0) :
     verify c bf Q z r s = .ok true ↔
       1 ≤ r ∧ r < c.n ∧ 1 ≤ s ∧ s < c.n ∧
@@ -494,8 +494,9 @@ theorem C01_verifying_keys_group (bf : Int) (Q : Pt) (hQ : OnCurve c Q) (rQ : Re
   verify_true_iff_nonce_point ok bf Q hQ rQ hQn z r s hz
 
 /-- `verify` sees the hash modulo `n` only: `z` and `z + n` (and `z = n`, which is `≡ 0` but not refused) verify alike.
-pycoin never reduces `z`; it refuses `z = 0` only. -/
-theorem C01_verify_hash_mod_n (bf : Int) (Q : Pt) (hQ : OnCurve c Q) (rQ : Reduced c Q)
+pycoin never reduces `z`; it refuses `z = 0` only.  PARTIAL: extra hypothesis `n • Q = ∞`, discharged in
+`C01_verify_hash_mod_n_secp256k1` / `_secp256r1`. -/
+theorem C01_verify_hash_mod_n_partial (bf : Int) (Q : Pt) (hQ : OnCurve c Q) (rQ : Reduced c Q)
     (hQn : (c.n : Int) • toPoint c Q = 0) (z z' r s : Int) (hz : z ≠ 0) (hz' : z' ≠ 0)
     (hzz : z % (c.n : Int) = z' % (c.n : Int)) : verify c bf Q z r s = verify c bf Q z' r s :=
   verify_congr_z ok bf Q hQ rQ hQn z z' r s hz hz' hzz
@@ -612,12 +613,12 @@ theorem C01_verifying_hashes_finite_secp256r1 (bf : Int) (Q : Pt) (hQ : OnCurve 
 theorem C01_verify_hash_mod_n_secp256k1 (bf : Int) (Q : Pt) (hQ : OnCurve secp256k1 Q) (rQ : Reduced secp256k1 Q)
     (z z' r s : Int) (hz : z ≠ 0) (hz' : z' ≠ 0) (hzz : z % (secp256k1.n : Int) = z' % (secp256k1.n : Int)) :
     verify secp256k1 bf Q z r s = verify secp256k1 bf Q z' r s :=
-  C01_verify_hash_mod_n C01_ecdsaOk_secp256k1 bf Q hQ rQ (order_all_secp256k1 _) z z' r s hz hz' hzz
+  C01_verify_hash_mod_n_partial C01_ecdsaOk_secp256k1 bf Q hQ rQ (order_all_secp256k1 _) z z' r s hz hz' hzz
 
 theorem C01_verify_hash_mod_n_secp256r1 (bf : Int) (Q : Pt) (hQ : OnCurve secp256r1 Q) (rQ : Reduced secp256r1 Q)
     (z z' r s : Int) (hz : z ≠ 0) (hz' : z' ≠ 0) (hzz : z % (secp256r1.n : Int) = z' % (secp256r1.n : Int)) :
     verify secp256r1 bf Q z r s = verify secp256r1 bf Q z' r s :=
-  C01_verify_hash_mod_n C01_ecdsaOk_secp256r1 bf Q hQ rQ (order_all_secp256r1 _) z z' r s hz hz' hzz
+  C01_verify_hash_mod_n_partial C01_ecdsaOk_secp256r1 bf Q hQ rQ (order_all_secp256r1 _) z z' r s hz hz' hzz
 
 /-! evaluated (tests, non-vacuity of `C01_verifying_keys_secp256k1`): (1) an honest signature — the signer verifies and is recovered at the
 abscissa `r`; (2) a constructed nonce point with `x(R) = n + 2 ≥ n` (`r = 2`): the keys recovered at the abscissa `r + n` verify
